@@ -61,8 +61,42 @@ def make():
             "LUEdge": LUEdge, "down": recursive_closure()}
 
 
+def closures_into(target, shared):
+    """By-value functions whose closures refer INTO the graph, to one list twice, and to a cyclic helper."""
+    helper = {"list": shared}
+    helper["self"] = helper
+
+    def peek():
+        return (target.idx, shared, helper["list"] is shared)
+
+    def two_lists(extra=shared):
+        return (shared, extra, target)
+
+    return peek, two_lists
+
+
+def build_chain(n, vcls_name="Vertex"):
+    """
+    A chain whose FIRST vertex received, through attributes= (so they precede its links in its __dict__), two
+    by-value functions that refer to a vertex far down the chain: the functions are written before that vertex.
+    """
+    c = make()
+    vcls = c.get(vcls_name, Vertex)
+    vs = [vcls(attributes={"idx": i}) for i in range(1, n)]
+    es = [DirectedEdge(vs[i], vs[i + 1], attributes={"tag": i}) for i in range(len(vs) - 1)]
+    shared = [7, 9]
+    peek, two = closures_into(vs[len(vs) // 2], shared)
+    head = vcls(attributes={"cb": peek, "cb2": two, "picked": shared, "idx": 0})
+    es.append(DirectedEdge(head, vs[0], attributes={"tag": n}))
+    vs[-1].cb = peek
+    return [head] + vs + es
+
+
 def build(variant, n=6):
     """A small graph over by-value classes.  variant picks which of them take part."""
+    if variant.startswith("chain"):
+        _, size, vcls_name = variant.split(":")
+        return build_chain(int(size), vcls_name)
     c = make()
     vcls = {"plain": [c["LPlain"]], "super": [c["LSuper"]], "child": [c["LChild"], c["LSuper"]],
             "mixed": [c["LPlain"], c["LSuper"], c["LChild"], Vertex]}[variant.split("+")[0]]
